@@ -99,3 +99,17 @@ Proof. exact tie_vt_cursor. Qed.
 Check C02_source_cursor : forall v, g_vt_cursor v = Ok (cursor_of (vt_cursor v)).
 Print Assumptions C02_source_cursor.
 
+From Avt Require Import Proofs.TermTieClosed.
+(** CLOSED TIE: the W-mode interface instantiated with the REGENERATED primitives only (`Og`: g_buffer_print / insert / delete / erase / wrap / scroll_up / scroll_down / new, g_tabs_*, g_dirty_*, g_charset_translate, g_buffer_resize with the regenerated reflow and relative_position, g_sgr, the regenerated reset lists) - `w_execute Og` is a function built from nothing but text regenerated from the Rust source, and it equals the hand-written model's `execute` on every state satisfying the invariant *)
+(** Terminal::execute, all 50 functions, closed over the regenerated primitives *)
+Theorem C02_source_execute_closed : forall t f, TInv t -> w_execute Og (zabs t) (wabs t) f = Some (wres (execute t f)).
+Proof. exact tie_execute_closed. Qed.
+Check C02_source_execute_closed : forall t f, TInv t -> w_execute Og (zabs t) (wabs t) f = Some (wres (execute t f)).
+Print Assumptions C02_source_execute_closed.
+
+(** the public resize, closed over the regenerated primitives *)
+Theorem C02_source_resize_closed : forall v c r, ZW (vterm v) -> 1 <= c -> 1 <= r -> match w_resize Og (zabs (vterm v)) (wabs (vterm v)) (Z.of_nat c) (Z.of_nat r) with Some (s, w, ok, _) => ok = true /\ stepM v (Resize c r) = vt_flush (v <| vterm := zput s w |>) | None => exists e, stepM v (Resize c r) = Panic e end.
+Proof. exact tie_resize_closed. Qed.
+Check C02_source_resize_closed : forall v c r, ZW (vterm v) -> 1 <= c -> 1 <= r -> match w_resize Og (zabs (vterm v)) (wabs (vterm v)) (Z.of_nat c) (Z.of_nat r) with Some (s, w, ok, _) => ok = true /\ stepM v (Resize c r) = vt_flush (v <| vterm := zput s w |>) | None => exists e, stepM v (Resize c r) = Panic e end.
+Print Assumptions C02_source_resize_closed.
+
